@@ -161,7 +161,7 @@ func c02DBs(thorough bool) []dbSpec {
 	}
 	triples := [][]int{{0, 1, 4}, {1, 0, 22}, {4, 5, 21}, {5, 4, 21}, {21, 4, 5}, {8, 12, 22}, {12, 8, 5}, {2, 3, 0}, {0, 0, 0}, {22, 22, 4}, {4, 5, 4, 5}, {0, 1, 2, 3, 4, 5, 8, 12, 21, 22}}
 	if thorough {
-		for _, s := range uSequences(6, 3) {
+		for _, s := range uSequences(5, 3) {
 			idx := make([]int, len(s))
 			for i, j := range s {
 				idx[i] = c02PoolIdx[j]
@@ -174,7 +174,7 @@ func c02DBs(thorough bool) []dbSpec {
 	}
 	// main file + personal notebook (merged by the loader): equal-scoring notebook entries
 	out = append(out, dbSpec{Pool: []int{4}, Personal: []int{0, 1, 2, 3}}, dbSpec{Pool: []int{0, 22}, Personal: []int{0, 1, 2, 3, 4, 5}}, dbSpec{Pool: []int{}, Personal: []int{2, 1, 0}})
-	out = append(out, dbSpec{Special: "sugties"}, dbSpec{Special: "shortdocs"}, dbSpec{Special: "forty"})
+	out = append(out, dbSpec{Special: "sugties"}, dbSpec{Special: "shortdocs"}, dbSpec{Special: "forty"}, dbSpec{Special: "embedded"})
 	return out
 }
 
@@ -235,6 +235,10 @@ func c02Run(c *lib.Ctx) {
 		qs := c02Queries
 		if spec.Special == "" && spec.Personal == nil && len(spec.Pool) <= 2 {
 			qs = c02Queries[:13] // the long queries need databases with a larger vocabulary
+		}
+		if spec.Special == "embedded" {
+			// the semantic stage: query words inside and outside the embedding vocabulary
+			qs = []string{"file compress", "compress file list", "files", "git file", "filing tar", "list"}
 		}
 		if spec.Special == "forty" {
 			// each execution costs ~1 ms and a case has thousands of schedules: six queries
@@ -359,7 +363,7 @@ func c02Run(c *lib.Ctx) {
 func init() {
 	lib.Register(&lib.Check{
 		ID: "C02", Level: "model_checking",
-		Rule:      "map-iteration-order exploration (the runtime's randomised order as scheduler): for every case = (database: 12 identical entries, all sequences of <=2 of a 10-entry tie-rich pool, 12 (quick) / 228 (thorough) longer sequences, the 40-entry database, a 14-entry database of short overlapping entries, 3 main+notebook pairs merged by LoadDatabaseWithPersonal with equal-scoring notebook entries) x 26 queries (lexical, 11-13-word, NLP-expanded, typo-fallback with one and with several misspelt words) x ({NLP, fuzzy} x limit {1,2,50} + one option set with context boosts whose keys differ only in letter case) + GetSuggestions, the execution 'load the database through the real loader, then search' is run under the canonical order and under every schedule deviating at <=1 dynamic range point (thorough: <=2 for the limit-2 cases of databases of <=3 entries whose execution has <=32 range points), a deviating point taking every permutation (<=4 keys) or reverse / rotate / every adjacent transposition (<=12 keys) / 6 spread transpositions (more keys); the ordered (entry, score-bits) list must be identical. states = cases (canonical executions); transitions = deviating executions; every execution runs the real code (traces validated = evaluations). non-trivial = cases with a non-empty answer. Process form: the instrumented binary (`wtf --format json -v`) is run under four forced whole-process map orders (sorted, reverse, rotate, swap) on 30 (database, query) cases and on the shipped 6,619-entry database for 40 queries, and the plain binary five times per case; outputs must be byte-identical after dropping the timing line. Schedule form: goroutines started by the search itself (rewritten go statements) run under the controlled scheduler; 6 (database, query) cases on a 320-entry look-alike database and the shipped one, every interleaving with <=2 preemptions must give the canonical answer (a single execution each while the search starts no goroutine)",
+		Rule:      "map-iteration-order exploration (the runtime's randomised order as scheduler): for every case = (database: 12 identical entries, all sequences of <=2 of a 10-entry tie-rich pool, 12 (quick) / 137 (thorough) longer sequences, the 40-entry database, a 14-entry database of short overlapping entries, 3 main+notebook pairs merged by LoadDatabaseWithPersonal with equal-scoring notebook entries, 6 entries with an in-memory embedding index attached whose vocabulary lacks a query word but has longer forms of it) x 26 queries (lexical, 11-13-word, NLP-expanded, typo-fallback with one and with several misspelt words) x ({NLP, fuzzy} x limit {1,2,50} + one option set with context boosts whose keys differ only in letter case) + GetSuggestions, the execution 'load the database through the real loader, then search' is run under the canonical order and under every schedule deviating at <=1 dynamic range point (thorough: <=2 for the limit-2 cases of databases of <=3 entries whose execution has <=32 range points), a deviating point taking every permutation (<=4 keys) or reverse / rotate / every adjacent transposition (<=12 keys) / 6 spread transpositions (more keys); the ordered (entry, score-bits) list must be identical. states = cases (canonical executions); transitions = deviating executions; every execution runs the real code (traces validated = evaluations). non-trivial = cases with a non-empty answer. Process form: the instrumented binary (`wtf --format json -v`) is run under four forced whole-process map orders (sorted, reverse, rotate, swap) on 30 (database, query) cases and on the shipped 6,619-entry database for 40 queries, and the plain binary five times per case; outputs must be byte-identical after dropping the timing line. Schedule form: goroutines started by the search itself (rewritten go statements) run under the controlled scheduler; 6 (database, query) cases on a 320-entry look-alike database and the shipped one, every interleaving with <=2 preemptions must give the canonical answer (a single execution each while the search starts no goroutine)",
 		Assume:    []string{"all map ranges of the repository are routed through vmap by the build overlay (sites listed under instrumentation)", "sort.Slice is deterministic for a given input order", "maps with more than 4 keys get the menu, not all n! orders"},
 		QuickSecs: 360, ThorSecs: 3000, Graph: true,
 		Run: c02Run,
